@@ -18,7 +18,7 @@ pub fn normalize(thorough: bool) -> Report {
     let maxd = if thorough { 3 } else { 2 };
     let mut r = Report::new(
         "every package descriptor with up to D dependencies drawn (with repetition, every order) from {libcnb:known/a, libcnb:known-b, libcnb:unknown, relative paths ./x, ../y, a/./b/../c, ../../../up, docker://img, https://h/p, urn:cnb:registry:x, /abs/./p} x id->path maps {complete, missing one, empty} x 2 descriptor locations: the real normalize_package_descriptor replaces each libcnb: reference by the mapped location (missing id => error, never kept or dropped), makes each relative path absolute and dot-free relative to the descriptor's directory, copies every other URI verbatim, keeps count, order, buildpack URI and platform, and the result serialises and parses again; non-trivial = descriptors with at least one libcnb: or relative dependency",
-        &format!("D <= {maxd} dependencies over 14 URI kinds (incl. libcnb: with an empty, reserved and malformed id)"),
+        &format!("D <= {maxd} dependencies over 14 URI kinds (incl. libcnb: with an empty, reserved and malformed id); plus 6 URIs that are not in normal form (upper-case host/scheme, dot segments, percent-encoding, empty segments) and ids differing only in case"),
     );
     let kinds: Vec<&str> = vec!["libcnb:", "libcnb:app", "libcnb:a_b", "libcnb:known/a", "libcnb:known-b", "libcnb:unknown", "./x", "../y", "a/./b/../c", "../../../up", "docker://img", "https://h/p", "urn:cnb:registry:x", "/abs/./p"];
     let locations = [PathBuf::from("/ws/buildpacks/meta/package.toml"), PathBuf::from("/package.toml")];
@@ -66,6 +66,36 @@ pub fn normalize(thorough: bool) -> Report {
             loop { if p == 0 { break; } p -= 1; idx[p] += 1; if idx[p] < kinds.len() { break; } idx[p] = 0; if p == 0 { p = usize::MAX; break; } }
             if d == 0 || p == usize::MAX { break; }
             if idx.iter().all(|&i| i == 0) { break; }
+        }
+    }
+    // ---- URIs that are not in RFC 3986 normal form are copied verbatim too; ids are case-sensitive keys
+    {
+        let odd = ["docker://Registry.Example.COM/Org/Image:Tag", "https://example.com/releases/../latest/./x.tgz", "https://example.com/a%2db%7e.tgz", "HTTPS://example.com/x", "docker://img:5000/a//b", "urn:CNB:Registry:X"];
+        let mut map: BTreeMap<BuildpackId, PathBuf> = BTreeMap::new();
+        map.insert("Known/A".parse().unwrap(), PathBuf::from("/out/upper"));
+        for with_lower in [false, true] {
+            if with_lower { map.insert("known/a".parse().unwrap(), PathBuf::from("/out/lower")); }
+            for u in odd.iter().copied().chain(["libcnb:known/a", "libcnb:Known/A", "libcnb:KNOWN/A"]) {
+                r.evaluations += 1; r.nontrivial += 1;
+                let toml_src = format!("[buildpack]\nuri = \".\"\n[[dependencies]]\nuri = \"{u}\"\n[[dependencies]]\nuri = \"../y\"\n");
+                let descriptor: PackageDescriptor = toml::from_str(&toml_src).unwrap();
+                let got = pd::normalize_package_descriptor(&descriptor, Path::new("/ws/bp/package.toml"), &map).map(|n| n.dependencies.iter().map(|d| d.uri.to_string()).collect::<Vec<_>>());
+                let want: Result<Vec<String>, ()> = match u.strip_prefix("libcnb:") {
+                    Some("Known/A") => Ok(vec!["/out/upper".into(), "/ws/y".into()]),
+                    Some("known/a") if with_lower => Ok(vec!["/out/lower".into(), "/ws/y".into()]),
+                    Some(_) => Err(()),
+                    None => Ok(vec![u.to_string(), "/ws/y".into()]),
+                };
+                let desc = format!("deps=[{u}, ../y] map keys {:?} (ids are case-sensitive)", map.keys().map(|k| k.to_string()).collect::<Vec<_>>());
+                match (&got, &want) {
+                    (Ok(g), Ok(w)) if g == w => {}
+                    (Err(_), Err(())) => {}
+                    // one class is reported under its own case id (KNOWN_FINDINGS.txt, F8): an upper-case SCHEME is written in lower case (uriparse canonicalises known schemes)
+                    (Ok(g), Ok(w)) if !u.starts_with("libcnb:") && g.len() == w.len() && g[1..] == w[1..] && u.split_once(':').map(|(sch, rest)| sch.chars().any(|c| c.is_ascii_uppercase()) && g[0] == format!("{}:{rest}", sch.to_ascii_lowercase())).unwrap_or(false) =>
+                        r.violation("verbatim_upper_case_scheme", "a URI whose scheme is written in upper case is not copied verbatim: the scheme is lower-cased", desc, format!("{w:?}"), format!("{g:?}")),
+                    _ => r.violation(if u.starts_with("libcnb:") { "ids_case_sensitive" } else { "verbatim_non_normal_form" }, "an id is looked up exactly (case-sensitive); a non-path URI is copied verbatim even when it is not in normal form", desc, format!("{want:?}"), format!("{:?}", got.map_err(|e| e.to_string()))),
+                }
+            }
         }
     }
     let _ = PackageDescriptorDependency::try_from("docker://x");
